@@ -44,7 +44,7 @@ Forks and several peers (Proofs/SyncFork.lean, Proofs/SyncMulti.lean):
                      remove it — provided it advertised more than we hold (otherwise finding C06-F4c);
   * `C06_pool_stable`, `C06_pool_of_announcements`  those hypotheses survive every headers message of the sync peer and
                      arise from announcements of conformant nodes.
-Two findings remain (KNOWN_FINDINGS C06-F4c, C06-X1); `C06_tick_keeps_exhausted_peer` states F4c for all states.
+Three findings remain (KNOWN_FINDINGS C06-F4c, C06-F5, C06-X1; `C06_overlapping_requests_counterexample` exhibits F5 on the model); `C06_tick_keeps_exhausted_peer` states F4c for all states.
 `C06_unrequested_headers` and `C06_announce_filtered` describe rules that are still in the code (headers outside
 headers-first mode disconnect their sender; a repeat of a still unanswered request is dropped).
 -/
@@ -644,6 +644,34 @@ theorem C06_checkpoint_cursor_counterexample :
   decide
 
 example : ∃ b, (locator [C01.exRoot]).head? = some b := ⟨1000, by decide⟩
+
+/-! ### finding C06-F5: an announcement in the middle of the initial sync ends it short -/
+
+/-- nine headers on C01's root: hashes 11 … 19 -/
+def exChain9 : List (Src Nat) := [C01.exSrc 1000 10, C01.exSrc 11 11, C01.exSrc 12 12, C01.exSrc 13 13, C01.exSrc 14 14,
+  C01.exSrc 15 15, C01.exSrc 16 16, C01.exSrc 17 17, C01.exSrc 18 18]
+
+/-- (finding C06-F5, KNOWN_FINDINGS) the closed loop is NOT robust against an inv of the sync peer while its sync request
+    is unanswered. Checkpoints at heights 2, 3, 4; the node (nine headers, cap 5) is asked ([G] → cp 12); before it answers
+    it announces its ninth block by inv: a SECOND request ([G] → 0) goes out to the same peer. The answer to the first
+    (11, 12) moves the cursor to (3, 13) and asks ([12] → 13); the answer to the second (11 … 15) runs past the
+    checkpoints of heights 3 and 4 (only the cursor's is compared), moves the cursor to (4, 14) and asks ([13] → 14).
+    Both follow-up answers (13; 14) hold only stored headers: no longest-chain header, nothing more is requested
+    (`C06_no_lc_header_stops`). The table ends at height 5 of the node's 9 (+1 announced) headers, the cursor stands
+    BELOW the tip, and no request is outstanding. -/
+theorem C06_overlapping_requests_counterexample :
+    let cfg : Sync.Cfg Nat := { chain := C01.exCfg, zero := 0, checkpoints := [(2, 12), (3, 13), (4, 14)], disableCp := false, now := 100 }
+    let n : Node Nat := { genesis := 1000, chain := exChain9, cap := 5 }
+    let s0 := newPeer cfg (new cfg [C01.exRoot]) 7 true 8 0
+    let s1 := handleInv cfg s0.1 7 [(true, 19)]
+    let s2 := handleHeaders cfg s1.1 7 (reply cfg.chain.hashOf n [1000] 12)
+    let s3 := handleHeaders cfg s2.1 7 (reply cfg.chain.hashOf n [1000] 0)
+    let s4 := handleHeaders cfg s3.1 7 (reply cfg.chain.hashOf n [12] 13)
+    let s5 := handleHeaders cfg s4.1 7 (reply cfg.chain.hashOf n [13] 14)
+    s0.2 = [.getheaders 7 [1000] 12] ∧ s1.2 = [.getheaders 7 [1000] 0] ∧ s2.2 = [.getheaders 7 [12] 13] ∧
+      s3.2 = [.getheaders 7 [13] 14] ∧ s4.2 = [] ∧ s5.2 = [] ∧
+      s5.1.store.map (·.hash) = [1000, 11, 12, 13, 14, 15] ∧ s5.1.nextCp = some (4, 14) ∧ n.chain.length = 9 := by
+  decide
 
 /-! ### forks and several peers on concrete trees -/
 
